@@ -56,6 +56,10 @@ T = {
  "C40-2": ("C40", "a SET column with 33-56 members followed by another column", "missed", "", "serialize/metadata length disagreement is an expression-level agreement; comparing formulas would fire on equivalent refactors of one side"),
  "C45-1": ("C45", "a commit whose Execute lands between reading nextHead and opening the attempt", "strengthened", "C45 attempt-opened-under-lock", ""),
  "C45-2": ("C45", "branch created / fast-forwarded / reset to an already replicated commit", "strengthened", "C45 push-hook-ack-after-ref-move", ""),
+ "C01-1": ("C01", ">=2 same-prefix addresses in one HasMany request against one table file, absent one sorting before a present one", "missed", "", "value-level: a shared loop cursor in the prefix-run scan; the suffix matcher is still applied to every candidate that is visited"),
+ "C01-2": ("C01", ">=2 chunks sharing the 8-byte prefix in one table file, a non-first one read through the single-address API", "first-run", "C01 found-needs-full-match (lookupOrdinal hit only on the suffix-match edge)", ""),
+ "C10-1": ("C10", "manifest truncated inside the lock hash or inside a table name", "first-run", "C10 parser-gate (field-count and parity comparisons)", ""),
+ "C10-2": ("C10", "bit flip in a journal chunk payload read through a batched API", "first-run", "C01 crc-gate (the C10 rule set leaves NewCompressedChunk to C01)", "reported by the sibling property's rule"),
  "C08-1": ("C08", "full GC after commit+tag, gc, then branch rewound/deleted (chunks only in old old-gen files, reachable only from new-gen roots)", "strengthened", "C08 generational-order (new-generation filter derives from AddChunksToStore)", "missed by the first C08 rule set"),
  "C08-2": ("C08", "chunk X put before the GC and left uncommitted, identical chunk put again during the GC, parent committed after the GC", "missed", "", "the keeper consultation on the chunkExists outcome is decided by a value computed after the retry loop; the rule set models the keeper handshake per front-end, not per memtable outcome (patch re-based onto fix b3e3cc0, see REBASE_NOTE.txt)"),
  "C08-3": ("C08", "a write+commit landing between the root read and BeginGC", "first-run", "C08 root-in-new-gen (reported as undecided: the root insertion is no longer found in the GC literals)", "reported through the rule's site floor, i.e. generically"),
